@@ -104,10 +104,11 @@ inductive SwKind where
   | no | nc
 deriving DecidableEq, Repr
 
-/-- `SW._replace_switch(t, before)`: `active = t < t_a` (before) or `t ≥ t_a`;
+/-- `SW._replace_switch(t, before)`: `active = t > t_a` (just before `t` the switch has operated iff
+    its time is earlier than `t`) or `t ≥ t_a` (at or after `t`);
     SW / SWno / SWpush: wire when active else open circuit; SWnc: the other way round -/
 def switchClosed [LT K] [DecidableLT K] [LE K] [DecidableLE K] (k : SwKind) (ta t : K) (before : Bool) : Bool :=
-  let active : Bool := if before then decide (t < ta) else decide (ta ≤ t)
+  let active : Bool := if before then decide (ta < t) else decide (ta ≤ t)
   match k with
   | .no => active
   | .nc => !active
